@@ -264,3 +264,38 @@ func vc_C07_octree_covers_box() {
 	}
 	vfReach("covers")
 }
+
+// The same for the 2-D quadtree renderer: its root square strictly contains the
+// bounding box of the shape, for cell counts around every power of two.
+type vfConst2 struct{ bb sdf.Box2 }
+
+func (l *vfConst2) BoundingBox() sdf.Box2       { return l.bb }
+func (l *vfConst2) Evaluate(p v2.Vec) float64 { return 1 }
+
+func vc_C07_quadtree_covers_box() {
+	cells := []int{1, 2, 3, 4, 5, 7, 8, 9, 15, 16, 17, 31, 32, 33, 63, 64, 65, 100, 127, 128, 129, 200, 255, 256, 257, 300, 510, 511, 512, 513, 1020, 1024}
+	shapes := []v2.Vec{{X: 1, Y: 1}, {X: 10, Y: 3}, {X: 0.3, Y: 7}, {X: 2, Y: 5}}
+	sz := shapes[vfCase("shape", len(shapes))]
+	var root *square
+	var rootDc *dcache2
+	vfStub("(*github.com/deadsy/sdfx/render.dcache2).processSquare", func(dc *dcache2, c *square, out sdf.Line2Writer) {
+		if root == nil {
+			root, rootDc = c, dc
+		}
+	})
+	for _, n := range cells {
+		root = nil
+		bb := sdf.Box2{Min: v2.Vec{X: -1, Y: 2}, Max: v2.Vec{X: -1 + sz.X, Y: 2 + sz.Y}}
+		(&MarchingSquaresQuadtree{meshCells: n}).Render(&vfConst2{bb: bb}, sdf.NewLine2Buffer(nil))
+		vfAssert(root != nil, "the quadtree renderer processes a root square")
+		if root == nil {
+			continue
+		}
+		side := float64(int(1)<<root.n) * rootDc.resolution
+		lo := rootDc.origin.Add(v2.Vec{X: float64(root.v.X), Y: float64(root.v.Y)}.MulScalar(rootDc.resolution))
+		eps := 1e-9
+		ok := lo.X < bb.Min.X-eps && lo.Y < bb.Min.Y-eps && lo.X+side > bb.Max.X+eps && lo.Y+side > bb.Max.Y+eps
+		vfAssert(ok, "the quadtree root square strictly contains the bounding box of the shape (padding on every side)")
+	}
+	vfReach("covers")
+}
